@@ -131,12 +131,15 @@ Definition obj_of_dict (ty : dtype) (d : ddict) : res det :=
 Record deleg := mkD { d_type : dtype; d_id : str; d_fmt : dformat; d_pool : option str;
                       d_details : option det }.
 
-(* Delegation.__init__ (atype and delegation_id are not None in this model) *)
+(* Delegation.__init__ (atype and delegation_id are not None in this model): a single-pool delegation keeps
+   no pool name; the other formats need one (assert), and a definition may not use the reserved
+   SINGLE_POOL_NAME (DelegationException) *)
 Definition new_deleg (ty : dtype) (id : str) (fmt : dformat) (pool : option str) : res deleg :=
   match fmt, pool with
-  | FSingle, _ => Ok (mkD ty id fmt pool None)
+  | FSingle, _ => Ok (mkD ty id FSingle None None)
   | _, None => Err EAssertion                      (* assert pool_id is not None *)
-  | _, Some _ => Ok (mkD ty id fmt pool None)
+  | FDef, Some p => if str_eqb p single_pool_name then Err EDelegation else Ok (mkD ty id FDef (Some p) None)
+  | FRef, Some p => Ok (mkD ty id FRef (Some p) None)
   end.
 
 (* Delegation.set_details (lines 90-104) *)
@@ -210,20 +213,29 @@ Fixpoint to_json_items (ty : dtype) (items : list deleg) : res jdoc :=
 
 Definition to_json (ds : delegations) : res jdoc := to_json_items (ds_type ds) (ds_items ds).
 
-(* body of the loop of Delegations.from_json (lines 270-295) up to the Delegation object *)
+(* body of the loop of Delegations.from_json up to the Delegation object: a definition / single-pool entry
+   must not carry the content of the other type, a reference must not carry any content
+   (DelegationException in both cases) *)
 Definition entry_of_json (ty : dtype) (id : str) (j : jentry) : res deleg :=
   match j_pool_id j with
   | Some pid =>
       let fmt := if str_eqb pid single_pool_name then FSingle else FDef in
       let pool := if str_eqb pid single_pool_name then None else Some pid in
-      match (match ty with TCap => j_caps j | TLab => j_labs j end) with
-      | None => Err EKey
-      | Some dd => bind (obj_of_dict ty dd) (fun x =>
-                   bind (new_deleg ty id fmt pool) (fun d => set_details d x))
+      match (match ty with TCap => j_labs j | TLab => j_caps j end) with
+      | Some _ => Err EDelegation                   (* carries the other type's content *)
+      | None =>
+          match (match ty with TCap => j_caps j | TLab => j_labs j end) with
+          | None => Err EKey
+          | Some dd => bind (obj_of_dict ty dd) (fun x =>
+                       bind (new_deleg ty id fmt pool) (fun d => set_details d x))
+          end
       end
   | None =>
       match j_pool j with
-      | Some p => new_deleg ty id FRef (Some p)
+      | Some p => match j_caps j, j_labs j with
+                  | None, None => new_deleg ty id FRef (Some p)
+                  | _, _ => Err EDelegation         (* a reference carries capacities or labels *)
+                  end
       | None => Err EDelegation
       end
   end.
@@ -292,6 +304,26 @@ Definition deleg_ok (lab_check : str -> dval -> option exn) (ty : dtype) (d : de
 
 Definition ds_wf (lab_check : str -> dval -> option exn) (ds : delegations) : bool :=
   forallb (deleg_ok lab_check (ds_type ds)) (ds_items ds) && str_nodup (map d_id (ds_items ds)).
+
+(* an inner dictionary of one of the three shapes the format knows: definition / single-pool entry with this
+   type's content only, or a bare reference *)
+Definition entry_clean (ty : dtype) (j : jentry) : bool :=
+  match j_pool_id j with
+  | Some _ => match ty with
+              | TCap => match j_caps j, j_labs j with Some _, None => true | _, _ => false end
+              | TLab => match j_labs j, j_caps j with Some _, None => true | _, _ => false end
+              end
+  | None => match j_pool j, j_caps j, j_labs j with Some _, None, None => true | _, _, _ => false end
+  end.
+
+(* the pool name the constructor leaves on a delegation of each format *)
+Definition ctor_shape (d : deleg) : bool :=
+  match d_fmt d, d_pool d with
+  | FSingle, None => true
+  | FDef, Some p => str_neqb p single_pool_name
+  | FRef, Some _ => true
+  | _, _ => false
+  end.
 
 (* the wire names must be pairwise different for the four-field reading of an inner dict to be the
    reading the code performs (`FIELD_POOL_ID in v.keys()` ... `elif FIELD_POOL in v.keys()`) *)
